@@ -10,6 +10,7 @@ require (
 	github.com/go-jose/go-jose/v4 v4.0.5
 	github.com/gorilla/securecookie v1.1.2
 	github.com/rs/cors v1.11.1
+	github.com/zitadel/logging v0.6.2
 	github.com/zitadel/oidc/v3 v3.0.0
 	golang.org/x/net v0.36.0
 	golang.org/x/oauth2 v0.29.0
@@ -24,7 +25,6 @@ require (
 	github.com/muhlemmer/gu v0.3.1 // indirect
 	github.com/muhlemmer/httpforwarded v0.1.0 // indirect
 	github.com/sirupsen/logrus v1.9.3 // indirect
-	github.com/zitadel/logging v0.6.2 // indirect
 	github.com/zitadel/schema v1.3.1 // indirect
 	go.opentelemetry.io/otel v1.29.0 // indirect
 	go.opentelemetry.io/otel/metric v1.29.0 // indirect
